@@ -88,14 +88,23 @@ class GarbageCollector:
                 f"Nothing was deleted."
             )
 
-        # 1. Refresh metadata to get latest view
+        # 1. Load in-flight protection markers (and sweep abandoned ones) BEFORE
+        # reading the metadata. A transaction keeps its markers until after its
+        # commit is visible, so with this order every file of a concurrently
+        # committing transaction is either still marked (markers read first) or
+        # already reachable (metadata read second). Reading the metadata first
+        # left a window - commit lands and clears its markers between the two
+        # reads - in which a just-committed file was neither, and was deleted.
+        protected_files = self._load_inflight_protection(inflight_timeout_ms)
+
+        # 2. Refresh metadata to get latest view
         metadata = self.metadata_manager.refresh()
         if not metadata:
             return stats
 
         logger.info(f"Starting garbage collection for {self.table_path}")
 
-        # 2. Identify all reachable files. ANY failure here aborts the whole
+        # 3. Identify all reachable files. ANY failure here aborts the whole
         # collection: deleting based on incomplete reachability deletes live data.
         reachable_data_files: Set[str] = set()
         reachable_manifests: Set[str] = set()
@@ -144,8 +153,6 @@ class GarbageCollector:
         logger.info(f"Found reachable: {len(reachable_manifest_lists)} manifest lists, "
                     f"{len(reachable_manifests)} manifests, {len(reachable_data_files)} data files")
 
-        # 3. Load in-flight protection markers (and sweep abandoned ones)
-        protected_files = self._load_inflight_protection(inflight_timeout_ms)
         if protected_files:
             logger.info(f"Protecting {len(protected_files)} in-flight files from GC")
 
